@@ -429,3 +429,64 @@ class ServerScheme(FnCheck):
             z3.Implies(self.has.e, z3.PrefixOf(z3.StringVal('https://'), bu.e)),
             z3.Implies(z3.Not(self.has.e), z3.PrefixOf(z3.StringVal('http://'), bu.e))) if bu.kind == 'str' else z3.BoolVal(False))
         ex.oblige(st, 'socket_wrapped_server_side_iff_context', z3.BoolVal(bool(st.ghost.get('wrapped'))) == self.has.e)
+
+
+@register
+class MkSslContextsFromFolder(FnCheck):
+    id = 'C19.mk_ssl_contexts_from_folder'
+    prop = 'C19'
+    opaque_ok = True
+    target = f'{CL}:mk_ssl_contexts_from_folder'
+    doc = ('mk_ssl_contexts_from_folder: whenever a CA file name is configured (the default is cacert.pem) the contexts '
+           'are built by mk_ssl_contexts with exactly <folder>/<that name> as CA file - never with "no CA file" (which '
+           'would yield contexts that do not verify the peer); a missing file is an error of mk_ssl_contexts, it is '
+           'not silently tolerated; key and certificate come from the same folder')
+
+    def setup(self, b):
+        self.ca_name_given = b.bool('ca_public_key_given')
+        self.ca_name = b.str('ca_public_key')
+        b.st.assume(z3.Length(self.ca_name.e) > 0)
+        ca = vany(z3.If(self.ca_name_given.e, Val.str(self.ca_name.e), Val.none), maybe_none=True, path='ca_public_key')
+        self.key_name, self.cert_name = b.str('private_key'), b.str('certificate')
+        cy = b.any('cyphers_file', maybe_none=True)
+        b.st.assume(z3.Or(Val.is_none(cy.e), Val.is_str(cy.e)))
+        pw = b.any('ssl_passwd', maybe_none=True)
+        b.st.ghost['calls'] = ()
+        return None, [b.str('ca_folder'), self.key_name, self.cert_name, ca, cy, pw], {}
+
+    def callees(self, ex):
+        def path_ctor(ex_, st, args, kwargs):
+            p = st.alloc('Path')
+            st.ghost['c:folder'] = p
+            return p
+
+        def joinpath(ex_, st, args, kwargs):
+            p = st.alloc('Path')
+            st.write_field(p, '__joined__', args[0])
+            return p
+
+        def exists(ex_, st, args, kwargs):
+            return vbool(fresh(BoolS, 'exists'))     # the file may or may not be there
+
+        def mk(ex_, st, args, kwargs):
+            st.ghost['calls'] = st.ghost['calls'] + (tuple(st.box(a) for a in args),)
+            return [(st.fork(), Raise(ex_.mk_exc('FileNotFoundError', 'mk_ssl_contexts'))), (st, st.alloc('SSLContextContainer'))]
+        return {'pathlib.Path': Pure(path_ctor, name='pathlib.Path(folder)'),
+                '*.joinpath': Pure(joinpath, name='Path.joinpath(name) -> <folder>/<name>'),
+                '*.exists': Pure(exists, name='Path.exists() (unknown)'), '*.is_file': Pure(exists, name='Path.is_file() (unknown)'),
+                f'{CL}:mk_ssl_contexts': Pure(mk, name='mk_ssl_contexts (C19.mk_ssl_contexts; raises FileNotFoundError for missing files)')}
+
+    def post(self, ex, st0, st, outcome, b):
+        calls = st.ghost['calls']
+        if outcome[0] == 'exc':
+            return
+        ex.oblige(st, 'contexts_built_by_mk_ssl_contexts_once', z3.BoolVal(len(calls) == 1 and len(calls[0]) >= 3))
+        if len(calls) != 1 or len(calls[0]) < 3:
+            return
+        key, cert, ca = calls[0][0], calls[0][1], calls[0][2]
+        joined = lambda p: z3.Select(st.get_arr('f:__joined__'), Val.oid(p))   # noqa: E731
+        ex.oblige(st, 'configured_ca_file_is_always_passed_on', z3.Implies(self.ca_name_given.e, z3.And(
+            Val.is_ref(ca), joined(ca) == Val.str(self.ca_name.e))))
+        ex.oblige(st, 'no_ca_file_only_when_none_is_configured', z3.Implies(Val.is_none(ca), z3.Not(self.ca_name_given.e)))
+        ex.oblige(st, 'key_and_certificate_from_the_folder', z3.And(
+            Val.is_ref(key), joined(key) == Val.str(self.key_name.e), Val.is_ref(cert), joined(cert) == Val.str(self.cert_name.e)))
